@@ -26,7 +26,7 @@ let show_entries (d : nat entry list) : string =
     | EUnexpected b -> Printf.sprintf "X%s;" (js b)) d)
 
 let run () = iter_lines (fun line ->
-  match split_on '|' line with
+  match (match split_on '|' line with [a; b; c; d; _text] -> [a; b; c; d] | l -> l) with
   | [inp; ents; nodiff; valid] ->
     let f = Array.of_list (split_on ' ' inp) in
     let ne = int_of_string f.(0) and nl = int_of_string f.(1) in
